@@ -70,6 +70,7 @@ pub fn hist_sample(h: &History) -> Value {
             Step::ClearGrad { h, .. } => format!("clear_grad(h{})", h),
             Step::Update { lr, params } => format!("update(lr={}, {:?})", lr, params),
             Step::ProbeSole { h } => format!("probe_sole_owner(h{})", h),
+            Step::Copy { h } => format!("copy(h{})", h),
         })
         .collect();
     json!(steps)
